@@ -389,6 +389,23 @@ pub fn run_encoders(_cases_path: &str, report_path: &str, opts: &[String]) {
         }
         if ii == 300 || ii == 70000 { rep.sample(json!({"input": inp})); }
     }
+    // the same filters with predictor parameters: the encoder either applies the predictor the decoder will undo, or refuses
+    let sample: Vec<u8> = (0..40u8).collect();
+    for (name, f) in [("lzw-tiff", StreamFilter::LZWDecode(params(2, 1, 8, 4, 0))), ("flate-tiff", StreamFilter::FlateDecode(params(2, 1, 8, 4, 1))),
+                      ("lzw-png", StreamFilter::LZWDecode(params(12, 1, 8, 4, 0))), ("flate-png", StreamFilter::FlateDecode(params(12, 1, 8, 4, 1))),
+                      ("flate-png15", StreamFilter::FlateDecode(params(15, 2, 8, 5, 1))), ("flate-undefined-predictor", StreamFilter::FlateDecode(params(5, 1, 8, 4, 1)))] {
+        rep.execs += 1;
+        match guarded(|| encode(&sample, &f)) {
+            Outcome::Done(Ok(enc)) => {
+                let back = lib(&enc, &f);
+                if back != json!({"k": "ok", "d": sample}) {
+                    rep.fail(&format!("encode-decode:{}", name), json!({"case": {"filter": name, "params": format!("{:?}", f)}, "encoded_len": enc.len(), "observed": back}));
+                }
+            }
+            Outcome::Done(Err(_)) => rep.count(&format!("encoder-rejects:{}", name)),
+            Outcome::Panic(p) => rep.fail(&format!("encode:panic:{}", name), json!({"case": {"filter": name}, "observed": panic_json(&p)})),
+        }
+    }
     // filters the encoder does not support must be rejected with an error, not a panic
     for f in [StreamFilter::RunLengthDecode, StreamFilter::LZWDecode(params(1, 1, 8, 1, 1)), StreamFilter::JPXDecode] {
         rep.execs += 1;
